@@ -1,6 +1,6 @@
 CONSTANTS
  SrcArrs = {1,2,9,11}
- SensArrs = {1,2,3,4,5,6,7,8,9,10,11,12,13,14,15,16,17,18,19}
+ SensArrs = {1,2,3,4,5,6,7,8,9,10,11,12,13,14,15,16,17,18,19,20,21}
  PPs = {1,2,3,4,5}
  Fields = {"B", "H"}
  Aggs = {"none", "sum", "mean", "min", "max", "median", "ptp", "var"}
